@@ -242,6 +242,8 @@ func (f *FailoverOf[V]) Get(
 
 	// Disabling defer to unlock in background.
 	alreadyLocked = true
+	// Copying key, background update must not depend on the slice that caller may reuse after return.
+	key = append([]byte(nil), key...)
 	// Spawning cache update in background.
 	go func() {
 		defer func() {
